@@ -357,6 +357,9 @@ def catalogue(g):
         else:
             add("ident.template-local." + nm, ["P(%s int, y string) (int, error)" % nm, "R(x int) (%s string, err error)" % nm, "V(p bool, %s ...string) (bool, error)" % nm,
                                                "N(%s bool)" % nm])
+            # own interfaces: a shadowing local of the same type leaves the mock compilable, only the values a callback receives tell
+            add("ident.template-local-bool." + nm, ["B(%s bool, n int) (bool, error)" % nm, "B2(n int, %s bool) bool" % nm])
+            add("ident.template-local-error." + nm, ["E(n int, %s error) error" % nm])
     for nm in QUALIFIER_NAMES:
         add("ident.qualifier." + nm, ["P(%s int, t %s.T) %s.T" % (nm, qa, qb), "Q(%s io.Reader, c context.Context) (http.Header, error)" % nm])
     add("ident.qualifier-own-type", ["P(model %s.T, http *http.Request, io io.Reader, context context.Context, time time.Duration) error" % qa])
